@@ -3,13 +3,16 @@ import Larking.Gen.Lexer
 import Larking.Gen.Missing
 import Larking.Expected.C16
 import Larking.Lemmas.LexerTotal
+import Larking.Lemmas.LexerComplete
+import Larking.Lemmas.Accept
 /-
   C16 — Registration accepts valid rules and rejects invalid ones without crashing.
   Proved here: the lexers are total; conflict detection and re-declaration at the rule's end
   node; nested variables and unresolvable selectors are errors; an accepted rule keeps the
-  trie well-formed (so that routing afterwards cannot crash, C01).  Acceptance of every
-  grammar-derived template and routing of its instantiations are decided by the differential
-  run against the grammar oracle (see the level note).
+  trie well-formed (so that routing afterwards cannot crash, C01).  Every template of the documented
+  grammar is lexed to its tokens (`grammar_templates_lex`); that `addRule` then accepts the
+  tokens and that the instantiated paths route is decided by the differential run against
+  the grammar oracle (see the level note).
 -/
 namespace Larking.Props.C16
 open Larking Larking.Lexer Larking.Trie
@@ -87,6 +90,63 @@ theorem nested_additional_rejected (resolve) (n : Node) (mid : Nat) (b : Binding
     addAdditional Gen.tokenCap resolve mid n ((b, true) :: more) = .err "nested-rules" := by
   simp [addAdditional]
 
+/-- **Every template of the documented grammar is lexed to its tokens** — `"/" Segments
+[ ":" LITERAL ]` with segments `*`, `**`, literals and variables `{field.path}` /
+`{field.path=sub/pattern}` (sub-patterns of `*`, `**`, literals: google.api.http forbids
+nested variables) — whenever its tokens fit larking's token array (the regenerated
+`Gen.tokenCap`). Literals are read as the code reads them: starting with a letter. -/
+theorem grammar_templates_lex (t : Tmpl) (ht : t.Wf) (hcap : t.toks.length ≤ Gen.tokenCap) :
+    lexTemplate Gen.tokenCap t.render = .ok t.toks :=
+  lexTemplate_complete Gen.tokenCap t ht hcap
+
+/-- … and a template that needs more tokens than the array holds is refused with an error,
+not a crash (the other half of the token limit). -/
+theorem grammar_templates_never_crash (t : Tmpl) (s : String) :
+    lexTemplate Gen.tokenCap t.render ≠ .panic s := lexTemplate_no_panic Gen.tokenCap t.render s
+
+/-- **Valid rules are accepted.** A rule whose bindings (primary and additional, not nested)
+have templates of the documented grammar that fit the token array, variables whose field
+paths resolve in the request type, and resolvable body / response_body selectors is accepted
+by `addRule` on EVERY trie — the only other outcome is the duplicate-rule error raised when
+one of its bindings ends where another method is already bound. (That the routes then lead
+to the method is `route_complete` / `route_sound` over the well-formed trie,
+`accepted_keeps_wellformed`.) -/
+theorem grammar_rules_accepted (resolve : List Bytes → Option Nat) (n : Node) (r : Rule) (mid : Nat)
+    (hp : ValidBinding Gen.tokenCap resolve r.primary)
+    (ha : ∀ p ∈ r.additional, p.2 = false ∧ ValidBinding Gen.tokenCap resolve p.1) :
+    (∃ n', addRule Gen.tokenCap resolve n r mid = .ok n') ∨
+      addRule Gen.tokenCap resolve n r mid = .err "duplicate-rule" :=
+  valid_rule_accepted Gen.tokenCap resolve n r mid hp ha
+
+/-- … and on the empty trie (nothing to conflict with) a single valid binding is accepted. -/
+theorem grammar_binding_accepted_on_empty (resolve : List Bytes → Option Nat) (b : Binding) (mid : Nat)
+    (hv : ValidBinding Gen.tokenCap resolve b) :
+    ∃ n', addRule Gen.tokenCap resolve .empty ⟨b, []⟩ mid = .ok n' := by
+  obtain ⟨n', h⟩ := valid_binding_accepted_on_empty Gen.tokenCap resolve b mid hv
+  exact ⟨n', by simp [addRule, h, addAdditional]⟩
+
+-- non-vacuity: "/v/{a.b=s/*}:g" as a template of the grammar
+private def pu (c : Nat) : Rune := ⟨[UInt8.ofNat c], c, false, false, false, false⟩
+private def le (c : Nat) : Rune := ⟨[UInt8.ofNat c], c, true, true, true, true⟩
+private def tmEx : Tmpl :=
+  { slash := pu 47, first := .simple (.lit [le 118]),
+    more := [(pu 47, .var { lbrace := pu 123, ident := [le 97],
+                            dotted := [(⟨[46], 46, false, false, true, true⟩, [le 98])],
+                            sub := some (pu 61, .lit [le 115], [(pu 47, .star (pu 42))]), rbrace := pu 125 })],
+    verb := some (pu 58, [le 103]) }
+example : lexTemplate Gen.tokenCap tmEx.render = .ok tmEx.toks ∧ tmEx.toks.length = 15 := by decide
+example : tmEx.Wf := by
+  refine ⟨by decide, ⟨⟨_, _, rfl, rfl⟩, by decide⟩, ?_, by decide, by decide, by decide⟩
+  intro p hp
+  simp only [tmEx, List.mem_singleton] at hp
+  subst hp
+  refine ⟨by decide, by decide, by decide, by decide, by decide, by decide,
+    ⟨⟨_, _, rfl, rfl⟩, by decide⟩, ?_⟩
+  intro q hq
+  simp only [List.mem_singleton] at hq
+  subst hq
+  exact ⟨by decide, (by decide : Punct cStar (pu 42))⟩
+
 end Larking.Props.C16
 
 #print axioms Larking.Props.C16.translator_complete
@@ -99,3 +159,7 @@ end Larking.Props.C16
 #print axioms Larking.Props.C16.nested_variable_rejected
 #print axioms Larking.Props.C16.accepted_keeps_wellformed
 #print axioms Larking.Props.C16.nested_additional_rejected
+#print axioms Larking.Props.C16.grammar_templates_lex
+#print axioms Larking.Props.C16.grammar_templates_never_crash
+#print axioms Larking.Props.C16.grammar_rules_accepted
+#print axioms Larking.Props.C16.grammar_binding_accepted_on_empty
